@@ -127,6 +127,19 @@ sys.dont_write_bytecode = True
 sys.path.insert(0, %(repo)r)
 from pynetdicom2 import statuses, dimsemessages as d
 bad = []
+# FIRST thing in a fresh process (nothing has been looked up yet): a private code registered INSIDE each built-in
+# service-specific range keeps its class whatever is looked up around it afterwards
+probe = [(0xA910, d.CStoreRSPMessage, 0xA920), (0xC010, d.CFindRSPMessage, 0xC020), (0xC110, d.CMoveRSPMessage, 0xC120),
+         (0xC210, d.CGetRSPMessage, 0xC220), (0xA750, d.CStoreRSPMessage, 0xA7F0)]
+for code, cmd, neighbour in probe:
+    statuses.add_status(code, 'Warning', 'private code inside a built-in range', command=cmd)
+for code, cmd, neighbour in probe:
+    first = statuses.Status(code, cmd).status_type
+    statuses.Status(neighbour, cmd)
+    statuses.Status(neighbour + 1, cmd)
+    again = statuses.Status(code, cmd).status_type
+    if first != 'Warning' or again != 'Warning':
+        bad.append('per-command registration inside a built-in range: 0x{0:04X} for {1} is {2}, after looking up 0x{3:04X} it is {4}'.format(code, cmd.__name__, first, neighbour, again))
 # a conflicting *general* registration must not override a service-specific class
 pairs = [(0xFF00, d.CFindRSPMessage, 'Pending'), (0xFF01, d.CFindRSPMessage, 'Pending'),
          (0xFF00, d.CGetRSPMessage, 'Pending'), (0xFF00, d.CMoveRSPMessage, 'Pending'),
